@@ -239,7 +239,7 @@ def run(ctx):
                         "reference_jsi": f64_of_hex(o["spectrum"]["ref_jsi"]) if o.get("spectrum", {}).get("class") == "ok" else None}, limit=5)
     nbad = correspondence(ctx, obs, units)
     oracle(ctx, obs)
-    if (not proved or nbad) and not any(v["found_input"] for v in ctx.violations):
+    if (not proved or nbad) and not cc.unknown_failing_input(ctx):
         ctx.log("S5 deep search for a failing input")
         obs2 = run_harness(ctx, binp, ["c20", ctx.seed + 15485863, 400, 60], timeout=1500)
         oracle(ctx, obs2)
